@@ -53,6 +53,8 @@ var origSyms = []sym{
 	{id: "m", text: "const (\n\tm0 = iota * 10\n\tm1\n\tm2 = \"x\"\n)", names: []string{"m0", "m1", "m2"}, kind: "const"},
 	// an explicit iota-free spec in the middle of a group: the specs after it still count from the start of the group
 	{id: "n", text: "const (\n\tn0 = iota\n\tn1\n\tn2 = \"s\"\n\tn3 = iota\n\tn4\n)", names: []string{"n0", "n1", "n2", "n3", "n4"}, kind: "const"},
+	// multi-name specs, the second one repeating the expression list of the first implicitly
+	{id: "mc", text: "const (\n\tmcA, mcB = iota, iota * 10\n\tmcC, mcD\n)", names: []string{"mcA", "mcB", "mcC", "mcD"}, kind: "const"},
 	// a method that happens to be called init is an ordinary method
 	{id: "minit", text: "func (t *T1) init() int { return 5 }", names: []string{"T1.init"}, kind: "method", recv: "T1"},
 	// package initialisers never override each other: both sides stay
@@ -760,7 +762,62 @@ func Run(maxOrig, maxActs, topActs int) *Result {
 		runBatch(r, batch)
 	}
 	runImportSubst(r)
+	runTestVariants(r)
 	return r
+}
+
+// runTestVariants: which overlay files take part in a plain build, in a build for the internal tests and in a
+// build of the external test package (import path with the _test suffix).
+func runTestVariants(r *Result) {
+	fsFiles := map[string]string{
+		"src/vt/p/ov.go":        "package p\n\nfunc FromPlain() int { return 1 }\n",
+		"src/vt/p/ov_test.go":   "package p\n\nfunc FromInternalTest() int { return 2 }\n",
+		"src/vt/p/ov_x_test.go": "package p_test\n\nfunc FromExternalTest() int { return 3 }\n",
+	}
+	restore := natives.VerifSetFS(fsFiles)
+	defer restore()
+	cases := []struct {
+		name, path string
+		isTest     bool
+		orig       string
+		want       string
+	}{
+		{"plain", "vt/p", false, "package p\n\nfunc Orig() int { return 0 }\n", "FromPlain,Orig"},
+		{"internal-test", "vt/p", true, "package p\n\nfunc Orig() int { return 0 }\n", "FromInternalTest,FromPlain,Orig"},
+		{"external-test", "vt/p_test", true, "package p_test\n\nfunc OrigX() int { return 0 }\n", "FromExternalTest,OrigX"},
+	}
+	for _, c := range cases {
+		id := "C12/testvariant/" + c.name
+		fset := token.NewFileSet()
+		var merged []*ast.File
+		func() {
+			defer func() {
+				if e := recover(); e != nil {
+					r.add(id, fmt.Sprintf("merge panics: %v", e))
+					merged = nil
+				}
+			}()
+			var err error
+			merged, _, err = gbuild.VerifParseAndAugment(c.path, map[string]string{"orig.go": c.orig}, c.isTest, fset)
+			if err != nil {
+				r.add(id, "merge fails: "+err.Error())
+				merged = nil
+			}
+		}()
+		if merged == nil {
+			continue
+		}
+		r.count(true)
+		got := facts(fset, merged, nil)
+		var names []string
+		for k := range got.keys {
+			names = append(names, k)
+		}
+		sort.Strings(names)
+		if strings.Join(names, ",") != c.want {
+			r.add(id, fmt.Sprintf("declarations of the merged package: %s, want %s", strings.Join(names, ","), c.want))
+		}
+	}
 }
 
 // runImportSubst enumerates (import path of the package) x (form of a "sync" import in the original) x
